@@ -286,7 +286,9 @@ def check_body(ops, res, c):
         if ctx.scoped.get() != "outside":
             viol.append(("scoped-value-not-restored-after-the-generator-finished", {"value": repr(ctx.scoped.get())[:60]}))
     # take_first for every n
-    for n in range(0, len(vals) + 3):
+    import sys
+
+    for n in list(range(0, len(vals) + 3)) + [sys.maxsize, sys.maxsize + 1, 2 ** 64, 10 ** 30][(len(ops) % 3) : (len(ops) % 3) + 2]:
         ctx, gen = fresh()
         g = gen(ops)
         out = ctx.norm(outcome(lambda: take_first(g, n)))
@@ -299,6 +301,8 @@ def check_body(ops, res, c):
             c["take_first_n0"] = c.get("take_first_n0", 0) + 1
         if n > len(vals):
             c["take_first_n_beyond_len"] = c.get("take_first_n_beyond_len", 0) + 1
+        if n > sys.maxsize:
+            c["take_first_n_beyond_the_machine_word"] = c.get("take_first_n_beyond_the_machine_word", 0) + 1
         if out != ("val", vals[:n]):
             viol.append(("take_first-result", {"n": n, "expected": vals[:n], "observed": repr(out)[:200]}))
             continue
@@ -416,7 +420,7 @@ def run_unit(unit, progress):
 
 def reach(c, tier):
     out = []
-    for k in ("bodies_with_awaits_after_last_value", "bodies_without_values", "bodies_with_nested_generator", "take_first_n0", "take_first_n_beyond_len", "repeated_take_first", "guard_checks", "exhaustion_checks", "runs_with_future_payloads", "bodies_holding_a_context_across_steps"):
+    for k in ("bodies_with_awaits_after_last_value", "bodies_without_values", "bodies_with_nested_generator", "take_first_n0", "take_first_n_beyond_len", "repeated_take_first", "guard_checks", "exhaustion_checks", "runs_with_future_payloads", "bodies_holding_a_context_across_steps", "take_first_n_beyond_the_machine_word"):
         if not c.get(k):
             out.append("%s is zero" % k)
     return out
